@@ -153,8 +153,11 @@ def _one_input(args):
     import io
     import contextlib
     logging.disable(logging.CRITICAL)
-    text, lang = args
+    text, lang = args[:2]
+    rtl = len(args) > 2 and args[2]
     out = {"text": text}
+    if rtl:
+        out["rtl"] = True
     from mwlib.parser import advtree
     from mwlib.parser.treecleaner import TreeCleaner
     buf = io.StringIO()
@@ -182,7 +185,7 @@ def _one_input(args):
     if v:
         out["c05"] = f"after build_advanced_tree: {v}"
         return out
-    tc = TreeCleaner(tree, save_reports=True)
+    tc = TreeCleaner(tree, save_reports=True, rtl=rtl) if rtl else TreeCleaner(tree, save_reports=True)
     for name in tc.cleaner_methods:
         t1 = time.process_time()
         try:
@@ -264,19 +267,21 @@ def run_passes(tier, seed, want=("c01", "c05", "c06")):
     classes = set()
     samples = []
     with ProcessPoolExecutor(max_workers=14, initializer=_limit_memory) as pool:
-        for r in pool.map(one_input, [(t, "en") for t in cases], chunksize=400):
+        from contracts import triggerdocs
+        rtl_cases = [(t, "en", True) for t in triggerdocs.rtl_documents() + triggerdocs.trigger_documents(tier)[::7]]
+        for r in pool.map(one_input, [(t, "en") for t in cases] + rtl_cases, chunksize=400):
             for w in failures:
                 if w in r:
                     cls = r.get(w + "_class", r[w].split(":")[0][:60])
-                    failures[w].setdefault(cls, {"detail": r[w] + f" on {r['text']!r}"[:300],
-                                                 "witness": {"wikitext": r["text"]}, "class": cls})
+                    failures[w].setdefault(cls, {"detail": r[w] + f" on {r['text']!r}"[:300] + (" (TreeCleaner(rtl=True))" if r.get("rtl") else ""),
+                                                 "witness": {"wikitext": r["text"], "rtl": bool(r.get("rtl"))}, "class": cls})
             if "classes" in r:
                 classes.add(tuple(r["classes"]))
                 if len(samples) < 3 and len(r["classes"]) > 4:
                     samples.append(r["text"])
-    return {"evaluations": len(cases), "distinct": len(classes),
+    return {"evaluations": len(cases) + len(rtl_cases), "distinct": len(classes),
             "bound": f"all sequences of <= 2 lexemes over a {len(LEXEMES)}-lexeme alphabet (every scanner rule, extension tags, "
                      f"out-of-range entities, control / non-BMP characters, attribute triggers of the cleaner) "
                      f"{'+ length 3 over a reduced alphabet ' if tier != 'quick' else ''}+ seeded random sequences of 3..9 lexemes "
-                     f"+ documents of the C02 grammar + trigger documents (pass-enabling classes/ids/styles x table shapes x captions x preceding text; nested tables; blank inline siblings) + every known tag name in 8 spellings x 3 contexts; recursive templates behind the wikidb",
+                     f"+ documents of the C02 grammar + trigger documents (pass-enabling classes/ids/styles x table shapes x captions x preceding text; nested tables; blank inline siblings; formulas under TreeCleaner(rtl=True)) + every known tag name in 8 spellings x 3 contexts; recursive templates behind the wikidb",
             "failures": {w: list(f.values()) for w, f in failures.items()}, "samples": samples}
